@@ -17,27 +17,46 @@ pub fn def_use(
     for location in rd.keys() {
         du.entry(location.clone()).or_default();
         match location.function_location().apply(function).unwrap() {
-            il::RefFunctionLocation::Instruction(_, instruction) => instruction
-                .operation()
-                .scalars_read()
-                .into_iter()
-                .for_each(|scalar_read| {
-                    rd[location].locations().iter().for_each(|rd| {
-                        rd.function_location()
-                            .apply(function)
-                            .unwrap()
-                            .instruction()
-                            .unwrap()
-                            .operation()
-                            .scalars_written()
-                            .into_iter()
-                            .for_each(|scalar_written| {
-                                if scalar_written == scalar_read {
-                                    du.entry(rd.clone()).or_default().insert(location.clone());
-                                }
-                            })
+            il::RefFunctionLocation::Instruction(_, instruction) => {
+                // The definitions an instruction sees are those leaving its
+                // predecessors; rd[location] already has this instruction's
+                // own writes applied.
+                let ref_location = il::RefProgramLocation::new(
+                    function,
+                    location.function_location().apply(function)?,
+                );
+                let mut reaching = LocationSet::new();
+                for predecessor in ref_location.backward()? {
+                    if let Some(predecessor_rd) = rd.get(&predecessor.into()) {
+                        for rd in predecessor_rd.locations() {
+                            reaching.insert(rd.clone());
+                        }
+                    }
+                }
+                instruction
+                    .operation()
+                    .scalars_read()
+                    .into_iter()
+                    .flatten()
+                    .for_each(|scalar_read| {
+                        reaching.locations().iter().for_each(|rd| {
+                            rd.function_location()
+                                .apply(function)
+                                .unwrap()
+                                .instruction()
+                                .unwrap()
+                                .operation()
+                                .scalars_written()
+                                .into_iter()
+                                .flatten()
+                                .for_each(|scalar_written| {
+                                    if scalar_written == scalar_read {
+                                        du.entry(rd.clone()).or_default().insert(location.clone());
+                                    }
+                                })
+                        })
                     })
-                }),
+            }
             il::RefFunctionLocation::Edge(edge) => {
                 if let Some(condition) = edge.condition() {
                     condition.scalars().into_iter().for_each(|scalar_read| {
